@@ -256,7 +256,7 @@ func collectTVarFTypeWithSet(visited SSet, ft FType) []string {
 		}))
 	case FType_FUnion:
 		ut := _v9.Value
-		uname := utName(ut)
+		uname := uniToKey(ut)
 		return frt.IfElse(SSetHasKey(visited, uname), (func() []string {
 			return slice.New[string]()
 		}), (func() []string {
@@ -461,9 +461,10 @@ func transTVFTypeWithSet(visited SSet, transTV func(TypeVar) FType, ftp FType) F
 		}))
 	case FType_FUnion:
 		ut := _v17.Value
-		uname := utName(ut)
+		uname := uniToKey(ut)
 		return frt.IfElse(SSetHasKey(visited, uname), (func() FType {
-			return ftp
+			ntargs := slice.Map(recurse, ut.Targs)
+			return frt.Pipe(UnionType{Name: ut.Name, Targs: ntargs}, New_FType_FUnion)
 		}), (func() FType {
 			SSetPut(visited, uname)
 			cases := utCases(ut)
